@@ -722,6 +722,13 @@ impl<'de, R: Read<'de>> Parser<R> {
                 }
             }
             Token::ListOpen(close) => {
+                // The empty list does not nest anything, so it does not count
+                // as a level: `nil` read as the empty list is accepted where
+                // `()`, which it is printed as, has to be accepted as well.
+                if self.parse_whitespace()? == Some(close) {
+                    self.eat_char();
+                    return Ok(Some(Value::Null));
+                }
                 self.enter_nested()?;
 
                 let ret = self.parse_list(close);
@@ -803,6 +810,15 @@ impl<'de, R: Read<'de>> Parser<R> {
                 }
             }
             Token::ListOpen(close) => {
+                // See `next_value`: the empty list does not count as a level.
+                if self.parse_whitespace()? == Some(close) {
+                    self.eat_char();
+                    return Ok(Some(Datum::primitive(
+                        Value::Null,
+                        start,
+                        self.read.position(),
+                    )));
+                }
                 self.enter_nested()?;
 
                 let ret = self.parse_list_meta(close);
